@@ -662,7 +662,7 @@ class LogNormal(ContinuousDistribution):
         Returns:
             torch.Tensor: resulting cumulative probabilities.
         """
-        return torch.log(cls.logcdf(support, loc, scale))
+        return torch.log(cls.cdf(support, loc, scale))
 
     @classmethod
     def mean(
